@@ -15,7 +15,9 @@ RULE = ('spec trees of depth <= 3 (quick) / 4 (thorough) built from nestings of 
         'children and call arguments; leaves are mode probes (a custom spec object recording scope[MODE] at its '
         'position, unique id per position), mode-sensitive plain objects (a string, a tuple, a list, a dict: they mean '
         'something different in every mode), T, instrumented callables; plus Fill over random literal container shapes '
-        '(dict/list/tuple/set/frozenset nested to depth 3) with T / Spec / Val / callable leaves. Observed: result, '
+        '(dict/list/tuple/set/frozenset nested to depth 3) with T / Spec / Val / callable leaves; plus containers with T leaves '
+        'in argument position (Coalesce default, Call args/kwargs, S(k=..) value, Fill) evaluated once per record of a '
+        'list of distinct records after an access step of the same chain. Observed: result, '
         'ordered call log and the (probe id, mode) log. non-trivial = at least one wrapper and one probe or '
         'mode-sensitive object; distinct = distinct (target, spec)')
 TRUSTED = ['Python primitives are parameters of the theorems (`Prims`); their executable instantiation is validated by '
@@ -47,7 +49,10 @@ def generate(rng, tier, scale, **focus):
         t = g.target()
         depth = rng.choice([1, 2, 2, 3]) if tier == 'quick' else rng.choice([2, 3, 3, 4])
         p = rng.random()
-        if p < 0.15:
+        if p < 0.12:
+            t = Gen.rows_target(rng)
+            spec = g.s_argshape(t, 2)
+        elif p < 0.25:
             spec = g.s_fillshape(t, rng.choice([1, 2, 3]))
         elif p < 0.45:
             # a wrapper at a chosen step of a chain, followed / preceded by mode-sensitive probes
